@@ -609,6 +609,8 @@ func (ec *EvalCtx) call(e *CExpr) Val {
 	case "$strcat":
 		vc.strLits["fun.str.cat"] = "(Str Str) Str"
 		return TV{app("str.cat", SStr, argT(0), argT(1)), types.Typ[types.String]}
+	case "$emptyset":
+		return TV{Term{"((as const (Array Int Bool)) false)", arrSort(SInt, SBool)}, nil}
 	case "$sel":
 		return TV{tSelect(argT(0), argT(1)), nil}
 	case "$store":
@@ -848,189 +850,6 @@ func findSelectWith(body, v string) string {
 }
 
 // ---------- modifies targets ----------
-
-// havocTarget: make the named location(s) unconstrained in the current state.
-func (ec *EvalCtx) havocTarget(tgt string) {
-	st := ec.st
-	vc := st.vc
-	tgt = strings.TrimSpace(tgt)
-	if tgt == "" || tgt == "nothing" {
-		return
-	}
-	if tgt == "$alloc" {
-		vc.setKeySort(allocKey, arrSort(SInt, SBool))
-		old := st.get(allocKey)
-		nw := st.havocKey(allocKey)
-		st.addLine(fmt.Sprintf("(assert (forall ((r Int)) (! (=> (select %s r) (select %s r)) :pattern ((select %s r)))))", old.S, nw.S, old.S))
-		return
-	}
-	if strings.HasPrefix(tgt, "key ") { // raw heap key (whole)
-		k := strings.TrimSpace(tgt[4:])
-		if _, ok := vc.keySort[k]; ok {
-			st.havocKey(k)
-		} else {
-			st.nonnil["pendinghavoc:"+k] = true
-		}
-		return
-	}
-	elems := false
-	if strings.HasSuffix(tgt, "[*]") {
-		elems = true
-		tgt = strings.TrimSuffix(tgt, "[*]")
-	}
-	e, err := parseCExpr(tgt)
-	if err != nil {
-		fail("bad modifies target %q: %v", tgt, err)
-	}
-	switch e.Kind {
-	case "ghost":
-		if gd := vc.cs.Ghosts[e.Name]; gd != nil && strings.HasPrefix(gd.Sort, "fun ") {
-			for k := range vc.keySort {
-				if strings.HasPrefix(k, "G:$"+e.Name+"<") {
-					st.havocKey(k)
-				}
-			}
-			st.nonnil["pendinghavocprefix:G:$"+e.Name+"<"] = true
-			return
-		}
-		ec.ghostGlobal(e.Name)
-		st.havocKey("G:$" + e.Name)
-		return
-	case "index":
-		if e.Args[0].Kind == "ghost" {
-			ec.ghostGlobal(e.Args[0].Name)
-			key := "G:$" + e.Args[0].Name
-			arr := st.get(key)
-			_, es, _ := arrayParts(arr.Sort)
-			fv := st.declare("gv", es)
-			st.set(key, tStore(arr, ec.evalTerm(e.Args[1]), fv))
-			return
-		}
-	case "sel":
-		// Type.field (all objects) or x.field (one object)
-		if e.Args[0].Kind == "ident" {
-			if _, isName := ec.names[e.Args[0].Name]; !isName {
-				if _, isBound := ec.bound[e.Args[0].Name]; !isBound {
-					// type-wide
-					t := ec.resolveType(e.Args[0].String())
-					ec.havocTypeField(t, e.Name, elems)
-					return
-				}
-			}
-		}
-		if e.Args[0].Kind == "sel" && e.Args[0].Args[0].Kind == "ident" {
-			if p := ec.findPkg(e.Args[0].Args[0].Name); p != nil {
-				if _, isName := ec.names[e.Args[0].Args[0].Name]; !isName {
-					t := ec.resolveType(e.Args[0].String())
-					ec.havocTypeField(t, e.Name, elems)
-					return
-				}
-			}
-		}
-		x := ec.eval(e.Args[0])
-		p, ok := ec.ptrOf(x)
-		if !ok {
-			fail("modifies target %q: not a pointer", tgt)
-		}
-		if strings.HasPrefix(e.Name, "$") {
-			ec.ghostField(x, e.Name[1:])
-			key := objKey(p.Root, joinPath(p.Path, e.Name))
-			arr := st.get(key)
-			_, es, _ := arrayParts(arr.Sort)
-			st.set(key, tStore(arr, p.Base, st.declare("gf", es)))
-			return
-		}
-		np, ok := fieldPtr(p, e.Name)
-		if !ok {
-			fail("modifies target %q: no field %s", tgt, e.Name)
-		}
-		if elems {
-			sv, ok := st.load(np, false).(SliceV)
-			if !ok {
-				fail("modifies %q[*]: not a slice", tgt)
-			}
-			el := sliceElem(sv.Typ)
-			ep := PtrV{Kind: "elem", Root: typeRepr(el), Base: sv.Arr, Idx: tInt(0), Elem: el}
-			for _, lf := range leavesOf(el, "") {
-				key, _ := st.leafSortKey(ep, lf)
-				a := st.get(key)
-				st.set(key, tStore(a, sv.Arr, st.declare("me", arrSort(SInt, lf.sort))))
-			}
-			return
-		}
-		st.store(np, st.freshVal("mod."+e.Name, np.Elem))
-		return
-	case "un":
-	case "call":
-		if e.Name == "$deref" {
-			v := ec.eval(e.Args[0])
-			p, ok := ec.ptrOf(v)
-			if !ok {
-				fail("modifies $deref: not a pointer")
-			}
-			st.store(p, st.freshVal("mod.deref", p.Elem))
-			return
-		}
-		if gd := vc.cs.Ghosts[strings.TrimPrefix(e.Name, "$")]; gd != nil && strings.HasPrefix(gd.Sort, "fun ") && strings.HasPrefix(e.Name, "$") {
-			x := ec.evalTerm(e.Args[0])
-			key, arr := ec.ghostFunArr(e.Name[1:], x.Sort)
-			_, es, _ := arrayParts(arr.Sort)
-			st.set(key, tStore(arr, x, st.declare("gfv", es)))
-			return
-		}
-		if e.Name == "$chan" { // $chan(c): the ghost state of channel c
-			ch := ec.evalTerm(e.Args[0])
-			for _, f := range []string{"len"} {
-				k := st.chanKey(f)
-				nl := st.declare("chl", SInt)
-				st.assume(tAnd(tLe(tInt(0), nl), tLe(nl, st.chanGet(ch, "cap"))))
-				st.set(k, tStore(st.get(k), ch, nl))
-			}
-			return
-		}
-	case "ident":
-		// a local/pointer parameter name: havoc what it points to
-		if v, ok := ec.names[e.Name]; ok {
-			if p, ok := ec.ptrOf(v); ok {
-				st.store(p, st.freshVal("mod."+e.Name, p.Elem))
-				return
-			}
-		}
-	}
-	fail("unsupported modifies target %q", tgt)
-}
-
-func (ec *EvalCtx) havocTypeField(t types.Type, field string, elems bool) {
-	st := ec.st
-	root := rootName(t)
-	if strings.HasPrefix(field, "$") {
-		key := objKey(root, field)
-		if _, ok := st.vc.keySort[key]; ok {
-			st.havocKey(key)
-		} else {
-			st.nonnil["pendinghavoc:"+key] = true
-		}
-		return
-	}
-	p := PtrV{Kind: "obj", Root: root, Base: tInt(0), Elem: t}
-	np, ok := fieldPtr(p, field)
-	if !ok {
-		fail("modifies %s.%s: no such field", root, field)
-	}
-	if elems {
-		el := sliceElem(np.Elem)
-		ep := PtrV{Kind: "elem", Root: typeRepr(el), Base: tInt(0), Idx: tInt(0), Elem: el}
-		for _, lf := range leavesOf(el, "") {
-			key, _ := st.leafSortKey(ep, lf)
-			st.havocKey(key)
-		}
-		return
-	}
-	for _, lf := range leavesOf(np.Elem, "") {
-		key, _ := st.leafSortKey(np, lf)
-		st.havocKey(key)
-	}
-}
 
 // staticTargetKeys: keys named by a modifies target, resolved with static types (for loop modification sets).
 func (vc *VC) staticTargetKeys(tgt string, origin *ssa.Function, c *ssa.CallCommon) ([]string, bool) {
